@@ -1,3 +1,4 @@
+mod algostream;
 mod benchstream;
 mod guessstream;
 mod inprocstream;
@@ -194,6 +195,34 @@ fn main() {
             }
             for sh in 0..shards as usize {
                 fs::write(format!("{}/guess_{}.json", out, sh), serde_json::to_string(&jsons[sh]).unwrap()).unwrap();
+            }
+        }
+        "algo" => {
+            let master: u64 = arg(&args, "--master").unwrap_or("0").parse().unwrap();
+            let from: u64 = arg(&args, "--from").unwrap_or("0").parse().unwrap();
+            let count: u64 = arg(&args, "--count").unwrap_or("10").parse().unwrap();
+            let shards: u64 = arg(&args, "--shards").unwrap_or("1").parse().unwrap();
+            let profile = arg(&args, "--profile").unwrap_or("mixed").to_string();
+            let out = arg(&args, "--out-dir").unwrap_or(".").to_string();
+            fs::create_dir_all(&out).unwrap();
+            let mut vfiles = Vec::new();
+            let mut jsons: Vec<Vec<serde_json::Value>> = Vec::new();
+            for sh in 0..shards {
+                let mut f = fs::File::create(format!("{}/algo_{}.v", out, sh)).unwrap();
+                writeln!(f, "From Coq Require Import String.\nFrom Coq Require Import List NArith ZArith.\nFrom Cambrian Require Import Check.AlgoCheck.\nImport ListNotations.\nSet Printing Width 100000.\nSet Printing Depth 100000.").unwrap();
+                vfiles.push(f);
+                jsons.push(Vec::new());
+            }
+            for k in 0..count {
+                let idx = from + k;
+                let c = algostream::run_case(master, idx, &profile);
+                let sh = (k % shards) as usize;
+                write!(vfiles[sh], "{}", c.coq).unwrap();
+                writeln!(vfiles[sh], "Eval vm_compute in (judge_algo a{}).", idx).unwrap();
+                jsons[sh].push(c.json);
+            }
+            for sh in 0..shards as usize {
+                fs::write(format!("{}/algo_{}.json", out, sh), serde_json::to_string(&jsons[sh]).unwrap()).unwrap();
             }
         }
         "meta" => {
